@@ -7,8 +7,8 @@ FINISH = dict(level="fault_enumeration",
                    "json_tokener_parse, 10 constructors, object add with table growth / replace / constant key, array "
                    "add/put/insert with growth, set_string growth of an inline string and re-growth / shrink / equal-length set of an already grown one, deep copy, 13 serializations, pointer set/get incl. "
                    "printf variants, a 6-operation patch and each operation alone) is failed in turn (thorough: plus a "
-                   "random second failure); a case is non-trivial when the failing request was reached; distinct = "
-                   "distinct (workload, variant, k, k2); TLC validates each event against the Faults overlay; the "
+                   "random second failure), on the fixed set-up and again after each of H seeded pseudo-random histories of ordinary operations on the caller-owned objects (quick H=5, thorough H=39); a case is non-trivial when the failing request was reached; distinct = "
+                   "distinct (workload, variant, history, k, k2); TLC validates each event against the Faults overlay; the "
                    "micro-step rollback models (Faults.tla) are model-checked for every failing position")
 MUTS = ["objadd_key_leak", "attach_leak"]
 
@@ -24,7 +24,7 @@ def diag_of(rec, ex):
             cls = "wrong_result"
         elif rec.get("status") == 2:
             cls = "no_documented_failure"
-    return {"op": rec.get("e"), "w": rec.get("w"), "v": rec.get("v"), "k": rec.get("k"), "site": rec.get("site"), "class": cls,
+    return {"op": rec.get("e"), "w": rec.get("w"), "v": rec.get("v"), "h": rec.get("h"), "k": rec.get("k"), "site": rec.get("site"), "class": cls,
             "status": rec.get("status"), "leak": rec.get("leak")}
 
 
@@ -37,14 +37,15 @@ def run(ck):
     ck.mc("Faults", "C08_mc.cfg", workers=4, timeout=600)
     for m in MUTS:
         ck.mc_must_fail("Faults", "C08_asfound_%s.cfg" % m, workers=4, timeout=600)
+    H = 40 if thorough else 6
     exe = vlib.build("san", vlib.harness_sources(), "vh")
     tp = os.path.join(ck.dir, "v.ndjson")
-    deaths = vlib.run_executions(exe, lambda st: ["c08", "sweep", 0, 99, 1 if thorough else 0], 1, tp, timeout=1800)
+    deaths = vlib.run_executions(exe, lambda st: ["c08", "sweep", 0, 99, 1 if thorough else 0, 0, H], 1, tp, timeout=1800)
     lines = vlib.read_lines(tp)
     faults = [json.loads(x) for x in lines if x.startswith('{"e":"fault"')]
     hit = [f for f in faults if f["hit"]]
     ck.extra["evaluations"] = len(faults)
-    ck.extra["distinct_nontrivial"] = len({(f["w"], f["v"], f["k"], f["k2"]) for f in hit})
+    ck.extra["distinct_nontrivial"] = len({(f["w"], f["v"], f.get("h", 0), f["k"], f["k2"]) for f in hit})
     ck.extra["workload_variants"] = len([x for x in lines if x.startswith('{"e":"clean"')])
     ck.extra["failing_sites"] = sorted({f["site"] for f in hit})
     vlib.conformance(ck, "V:every-allocation-index-failed", "TraceFaults", "trace.cfg", tp, deaths, diag_of, min_events=500, timeout=1800,
